@@ -54,6 +54,12 @@ fn tree<const N: usize>(threads: usize) {
     std::mem::forget(d); std::mem::forget(files);
 }
 #[kani::proof]
+#[kani::unwind(6)]
+fn tree_n3_t1() { tree::<3>(1); }
+#[kani::proof]
+#[kani::unwind(6)]
+fn tree_n3_t4() { tree::<3>(4); }
+#[kani::proof]
 #[kani::unwind(12)]
 fn tree_n10_t1() { tree::<10>(1); }
 #[kani::proof]
